@@ -1360,9 +1360,32 @@ def _b_conv(kind):
 
 def _b_sorted(it, args, kw):
     vals = it.iterate(args[0], None)
-    if is_concrete(vals) and not kw:
-        return sorted(vals)
+    if is_concrete(vals) and set(kw) <= {'reverse'} and isinstance(kw.get('reverse', False), bool):
+        try:
+            return sorted(vals, reverse=kw.get('reverse', False))
+        except TypeError:
+            raise Raised('TypeError')
     return Sym('sorted(%s)' % show(args[0]))
+
+
+def _b_allany(which):
+    def f(it, args, kw):
+        """all(x) / any(x) over a sequence whose elements have known truth values"""
+        if len(args) != 1 or kw:
+            raise Undecidable('%s(...)' % which.__name__)
+        try:
+            vals = it.iterate(args[0], None)
+        except Undecidable:
+            return Sym('%s(%s)' % (which.__name__, show(args[0])))
+        ts = [it.truth(v, None) for v in vals]
+        if which is all:
+            if any(t is False for t in ts):
+                return False
+            return True if all(t is True for t in ts) else Sym('all(%s)' % show(args[0]))
+        if any(t is True for t in ts):
+            return True
+        return False if all(t is False for t in ts) else Sym('any(%s)' % show(args[0]))
+    return f
 
 
 def _b_sum(it, args, kw):
@@ -1418,7 +1441,7 @@ _BUILTIN_FUNCS = {
     'len': _b_len, 'range': _b_range, 'slice': _b_slice, 'next': _b_next, 'iter': _b_iter, 'tuple': _b_seq(tuple), 'list': _b_seq(list), 'dict': _b_dict, 'enumerate': _b_enumerate,
     'zip': _b_zip, 'map': _b_map, 'min': _b_minmax(min), 'max': _b_minmax(max), 'isinstance': _b_isinstance, 'int': _b_conv(int),
     'float': _b_conv(float), 'str': _b_conv(str), 'bool': _b_conv(bool), 'sorted': _b_sorted, 'sum': _b_sum, 'callable': _b_callable,
-    'abs': _b_conv(abs), 'reversed': lambda it, a, k: list(reversed(it.iterate(a[0], None))), 'set': _b_set, 'frozenset': _b_set,
+    'abs': _b_conv(abs), 'reversed': lambda it, a, k: list(reversed(it.iterate(a[0], None))), 'set': _b_set, 'frozenset': _b_set, 'all': _b_allany(all), 'any': _b_allany(any),
 }
 
 
